@@ -1284,8 +1284,34 @@ def run(ctx, rep, corpus):
         for case in corpus:
             engine.process(mod_self(), ctx, rep, case)
         engine.generic_loop(mod_self(), ctx, rep, cases(ctx))
+        if ctx.model is not None:
+            kernel_guards(ctx, rep)
     finally:
         shutdown()
+
+
+def kernel_guards(ctx, rep):
+    """The decision functions of the property (is OpenMetrics listed in this Accept value, is gzip listed in this
+    Accept-Encoding value) and h_strip as the extracted driver answers them, against vm_compute on the Gallina definitions."""
+    import random
+    from .incoq import kernel_guard, coq_str
+    rr = random.Random(ctx.seed * 131 + 17)
+    words = ['application/openmetrics-text', 'application/openmetrics-text; version=1.0.0', 'text/plain', '*/*', 'gzip', 'GZIP',
+             'gZip', 'deflate', 'identity', 'gzip;q=0', 'gzip ;q=1', ' gzip', 'gzip ', 'x-gzip', 'application/openmetrics-text ',
+             ' application/openmetrics-text', 'Application/OpenMetrics-Text', 'application/openmetrics-textx', '', ' ', 'br',
+             'application/openmetrics-text;q=0.5', 'text/plain;version=0.0.4', '\xa0gzip', 'gzip\t', '\u2003gzip']
+    seps = [',', ', ', ' ,', ';', ',,', ' , ']
+    strs = list(words)
+    for _ in range(ctx.n(150, 1500)):
+        k = rr.randrange(1, 5)
+        strs.append(''.join(rr.choice(words) + rr.choice(seps) for _ in range(k)) + rr.choice(words))
+    m = ctx.model
+    kernel_guard(rep, 'h_strip', ['lib.PyBase', 'model.Http'], 'h_strip', [(coq_str(t), d_str(m.call('c17_strip', t))) for t in strs])
+    kernel_guard(rep, 'h_ci_gzip', ['lib.PyBase', 'model.Http'], 'h_ci_gzip',
+                 [(coq_str(t), d_bool(m.call('c17_ci_gzip', t))) for t in strs], ret='bool')
+    kernel_guard(rep, 'h_om_listed', ['lib.PyBase', 'model.Http'], 'h_om_listed',
+                 [('None', d_bool(m.call('c17_om', None)))] +
+                 [('(Some %s)' % coq_str(t), d_bool(m.call('c17_om', some(t)))) for t in strs], ret='bool')
 
 
 def mod_self():
